@@ -401,7 +401,7 @@ def check(res, tier, seed):
     if pid in ("C03", "C16"):
         # black box: a read fails with an error value panrpc uses as a signal elsewhere; a stuck response write
         from . import sys_props
-        lrecs, lrc, lout = C.run_job(binary, wd, "linkend", dict(family="sys", seed=seed, n=(35 if tier == "quick" else 350), cases=["linkend"]), timeout=900)
+        lrecs, lrc, lout = C.run_job(binary, wd, "linkend", dict(family="sys", seed=seed, n=(39 if tier == "quick" else 390), cases=["linkend"]), timeout=900)
         fam["linkend(black-box)"] = len(lrecs)
         for r in lrecs:
             if pid == "C03":
@@ -415,6 +415,10 @@ def check(res, tier, seed):
                                 "utils.ErrClosed": "closed", "wrapped context.Canceled": "read tcp: context canceled", "plain": "connection reset by peer"}[r["config"].split("fails with ")[1]]
                         if c["err"] != want:
                             vs.append("%s: Link returned %r, not the first (and only) reported error %r" % (r["config"], c["err"], want))
+                    elif c["m"] == "LinkReturn" and c["ret"] == "returned" and "with a cause" in r["config"]:
+                        want = "context deadline exceeded" if "timed out" in r["config"] else "context canceled"
+                        if c["err"] != want:
+                            vs.append("%s: Link returned %r, not the context's error %r" % (r["config"], c["err"], want))
                     elif c["m"] == "LinkReturn" and c["ret"] != "returned":
                         vs.append("Link did not return although an error was reported (%s)" % r["config"])
             if vs:
@@ -423,6 +427,13 @@ def check(res, tier, seed):
                               dict(kind="sys", family="linkend", config=r["config"], seed=r["seed"], all=vs[:8], calls=r.get("calls")))
     if pid == "C14":
         from . import sys_props
+        nrecs, nrc, nout = C.run_job(binary, wd, "nestedlink", dict(family="sys", seed=seed, n=(8 if tier == "quick" else 120), cases=["nestedlink"]), timeout=600)
+        fam["nestedlink(black-box)"] = len(nrecs)
+        for r in nrecs:
+            vs = sys_props.mon_nestedlink(r)
+            if vs:
+                monitor_hits += 1
+                res.violation("nestedlink", "implementation violates C14: %s" % vs[0], dict(kind="sys", family="nestedlink", config=r["config"], seed=r["seed"], all=vs[:6]))
         erecs, erc, eout = C.run_job(binary, wd, "enumrace", dict(family="sys", seed=seed, n=(12 if tier == "quick" else 200), cases=["enumrace"]), timeout=600)
         fam["enumrace(black-box)"] = len(erecs)
         for r in erecs:
